@@ -160,6 +160,18 @@ static Type *get_common_type(Type *ty1, Type *ty2) {
   return ty1;
 }
 
+// The type an operand has for the purpose of the integer promotions.
+// A bit-field is promoted according to its width, not its declared
+// type: if int can represent all its values it becomes int (C11
+// 6.3.1.1p2), e.g. an `unsigned x : 3` member.
+static Type *promotable_type(Node *node) {
+  if (node->kind == ND_MEMBER && node->member->is_bitfield &&
+      node->ty->kind == TY_INT && node->ty->is_unsigned &&
+      node->member->bit_width < 32)
+    return ty_int;
+  return node->ty;
+}
+
 // For many binary operators, we implicitly promote operands so that
 // both operands have the same type. Any integral type smaller than
 // int is always promoted to int. If the type of one operand is larger
@@ -168,7 +180,7 @@ static Type *get_common_type(Type *ty1, Type *ty2) {
 //
 // This operation is called the "usual arithmetic conversion".
 static void usual_arith_conv(Node **lhs, Node **rhs) {
-  Type *ty = get_common_type((*lhs)->ty, (*rhs)->ty);
+  Type *ty = get_common_type(promotable_type(*lhs), promotable_type(*rhs));
   *lhs = new_cast(*lhs, ty);
   *rhs = new_cast(*rhs, ty);
 }
@@ -206,7 +218,7 @@ void add_type(Node *node) {
     node->ty = node->lhs->ty;
     return;
   case ND_NEG: {
-    Type *ty = get_common_type(ty_int, node->lhs->ty);
+    Type *ty = get_common_type(ty_int, promotable_type(node->lhs));
     node->lhs = new_cast(node->lhs, ty);
     node->ty = ty;
     return;
@@ -238,11 +250,11 @@ void add_type(Node *node) {
   case ND_SHR: {
     // The integer promotions are performed on the (left) operand;
     // the result has the promoted type.
-    Type *ty = node->lhs->ty;
-    if (is_integer(ty) && ty->size < 4) {
+    Type *ty = promotable_type(node->lhs);
+    if (is_integer(ty) && ty->size < 4)
       ty = ty_int;
+    if (ty != node->lhs->ty)
       node->lhs = new_cast(node->lhs, ty);
-    }
     node->ty = ty;
     return;
   }
